@@ -2,7 +2,7 @@
 From PV Require Import Base.Prelude Generated.T_lexer Model.Lexer Model.EchoWriter Spec.LuaLex
   Instances.HoldsC07 Instances.HoldsC06
   Proofs.LexerProofs Proofs.LexerInv Proofs.LexerSpec Proofs.LexerStr Proofs.LexerEnc Proofs.LexerNum
-  Proofs.LexerAgree Proofs.LexerMain Proofs.LexerView.
+  Proofs.LexerAgree Proofs.LexerMain Proofs.LexerView Proofs.LexerChunk.
 From Coq Require Import ZifyBool.
 
 (* ---------- the writer only concatenates the codes *)
@@ -245,3 +245,21 @@ Proof.
   exists (rev raw ++ []). rewrite <- (app_nil_r (rev v)).
   apply (string_scan_agrees q (body ++ [q]) v raw [] Hq HB' Hcr U). rewrite app_length. cbn. lia.
 Qed.
+
+(* ---------- per-line chunks (the .p8 path): same tokens, same written text *)
+Theorem model_holds_C07_chunks ls : Forall ends_lf (removelast ls) -> Forall byte (concat ls) ->
+  match model_lex ls with
+  | Ok ts => holds_C07 (concat ls) (map observe ts) = true
+  | Err _ => holds_C07_error (concat ls) = true
+  end.
+Proof. intros HF HB. rewrite (model_lex_chunking ls HF). apply model_holds_C07. exact HB. Qed.
+
+Theorem echo_source_chunking ls : Forall ends_lf (removelast ls) -> echo_source ls = echo_source [concat ls].
+Proof. intros HF. unfold echo_source. rewrite (model_lex_chunking ls HF). reflexivity. Qed.
+
+Theorem model_holds_C06_chunks ls : Forall ends_lf (removelast ls) -> Forall byte (concat ls) ->
+  match echo_source ls with
+  | Ok lines => holds_C06 (concat ls) (concat lines) = true
+  | Err _ => holds_C06_error (concat ls) = true
+  end.
+Proof. intros HF HB. rewrite (echo_source_chunking ls HF). apply model_holds_C06. exact HB. Qed.
